@@ -377,3 +377,103 @@ Definition decode_file (unzip : list Z -> list Z) (nc : nat) (cs : list (nat * l
 
 Definition rect (nc : nat) (rows : list (list Z)) : Prop :=
   Forall (fun row => length row = nc /\ Forall is_i16 row) rows.
+
+(* ====================================================================== *)
+(* Part D — the Reader OBJECT across in-place operations                   *)
+(* ====================================================================== *)
+(* Fields of a spikeglx.Reader that are computed once and then cached:
+     file_bin            (switched by compress_file / decompress_file with keep_original=False)
+     nbytes              (set in __init__ only: file_bin.stat().st_size at construction)
+     meta.fileTimeSecs   (here as the sample count ns it implies; rewritten by open() on a mismatch)
+     _raw                (np.memmap | mtscomp.Reader)
+   Tree at 38d7b2f: decompress_file(keep_original=False) refreshes nbytes, resets _raw and
+   re-opens the object if it was open; compress_file(keep_original=False) only switches file_bin. *)
+Inductive rawk :=
+| RawNone       (* never opened *)
+| RawMemmap     (* np.memmap of x.bin (stays readable after x.bin was unlinked) *)
+| RawMtscomp    (* open mtscomp.Reader on x.cbin *)
+| RawClosed.    (* a closed reader still held in _raw (is_open True): no call of the current code produces it *)
+
+Record robj := mkR {
+  o_file : dfile; o_nbytes : Z; o_ns : Z; o_raw : rawk;
+  o_warn : bool       (* the last open() logged "meta data and filesize do not checkout" / "...chunks dont checkout" *)
+}.
+
+(* the recording on disk: n samples, nc channels, x.cbin of zc bytes whose
+   header announces nch samples; which of x.bin / x.cbin exist *)
+Record rworld := mkW { w_n : Z; w_nc : Z; w_zc : Z; w_nch : Z }.
+Definition fsize (w : rworld) (f : dfile) : Z :=
+  match f with DBin => 2 * w_n w * w_nc w | DCbin => w_zc w end.
+
+(* Reader.__init__ (open=False part): nbytes = stat().st_size; ns from the meta file (= ns0) *)
+Definition r_init (w : rworld) (f : dfile) (ns0 : Z) : robj :=
+  mkR f (fsize w f) ns0 RawNone false.
+
+(* Reader.open():
+     cbin: _raw = mtscomp.Reader; if _raw.shape != (ns, nc): warn; fileTimeSecs = shape[0] / fs
+     bin : if nc * ns * itemsize != self.nbytes:            <- cached nbytes
+               ftsec = file_bin.stat().st_size // (itemsize * nc) / fs     <- fresh size
+               warn; fileTimeSecs = ftsec
+           _raw = np.memmap(shape=(ns, nc))   (ValueError when the file is shorter: None)  *)
+Definition r_open (w : rworld) (o : robj) : option robj :=
+  match o_file o with
+  | DCbin =>
+      if w_nch w =? o_ns o then Some (mkR DCbin (o_nbytes o) (o_ns o) RawMtscomp false)
+      else Some (mkR DCbin (o_nbytes o) (w_nch w) RawMtscomp true)
+  | DBin =>
+      let mism := negb (w_nc w * o_ns o * 2 =? o_nbytes o) in
+      let ns' := if mism then fsize w DBin / (2 * w_nc w) else o_ns o in
+      if (0 <? ns') && (ns' * w_nc w * 2 <=? fsize w DBin)
+      then Some (mkR DBin (o_nbytes o) ns' RawMemmap mism)
+      else None
+  end.
+
+Inductive rop :=
+| ROpen
+| RCompress (keep : bool)       (* compress_file(keep_original=keep) *)
+| RDecompress (keep : bool)     (* decompress_file(keep_original=keep, overwrite=True) *)
+| RScratch.                     (* decompress_to_scratch(scratch_dir) *)
+
+(* object + which data files exist *)
+Record rstate := mkS { s_obj : robj; s_eb : bool; s_ec : bool }.
+
+(* decompress_file(keep_original=False), after the files were switched:
+     was_open = self.is_open; self.close(); ...; self.file_bin = out
+     self.nbytes = Path(self.file_bin).stat().st_size; self._raw = None
+     if was_open: self.open()
+   Returns the new object and whether that open() raised. *)
+Definition r_decompress_inplace (w : rworld) (o : robj) : robj * bool :=
+  let o1 := mkR DBin (fsize w DBin) (o_ns o) RawNone (o_warn o) in
+  match o_raw o with
+  | RawNone => (o1, false)
+  | _ => match r_open w o1 with Some o2 => (o2, false) | None => (o1, true) end
+  end.
+
+(* one call on the object; the bool says that the call raised (AssertionError of
+   the is_mtscomp guards — object unchanged —, ValueError of np.memmap) *)
+Definition r_step (w : rworld) (s : rstate) (op : rop) : rstate * bool :=
+  let o := s_obj s in
+  match op, o_file o with
+  | ROpen, _ =>
+      match r_open w o with Some o' => (mkS o' (s_eb s) (s_ec s), false) | None => (s, true) end
+  | RCompress keep, DBin =>
+      (* keep_original=False: self.file_bin = x.cbin and nothing else (nbytes, _raw stay) *)
+      (mkS (if keep then o else mkR DCbin (o_nbytes o) (o_ns o) (o_raw o) (o_warn o)) keep true, false)
+  | RCompress _, DCbin => (s, true)
+  | RDecompress true, DCbin => (mkS o true true, false)
+  | RDecompress false, DCbin =>
+      let r := r_decompress_inplace w o in (mkS (fst r) true false, snd r)
+  | RDecompress _, DBin => (s, true)
+  | RScratch, DCbin => (s, false)
+  | RScratch, DBin => (s, true)
+  end.
+
+Fixpoint r_run (w : rworld) (s : rstate) (ops : list rop) : list (rstate * bool) :=
+  match ops with
+  | [] => []
+  | op :: ops' => let r := r_step w s op in r :: r_run w (fst r) ops'
+  end.
+
+Definition r_start (w : rworld) (f : dfile) (ns0 : Z) : rstate :=
+  mkS (r_init w f ns0) (match f with DBin => true | DCbin => false end)
+      (match f with DBin => false | DCbin => true end).
